@@ -233,6 +233,18 @@ Proof.
     unfold is_digit in *. lia.
 Qed.
 
+(* the first line of a file: the number of predicates, at most 65536 (finite sweep) *)
+Lemma dec_small_length : forall n, 0 <= n <= max_num_preds -> Z.of_nat (length (dec n)) < max_token.
+Proof.
+  assert (F : forallb (fun k => Z.of_nat (length (dec (Z.of_nat k))) <? 10) (seq 0 (Z.to_nat 65537)) = true)
+    by (vm_compute; reflexivity).
+  intros n Hn. rewrite forallb_forall in F.
+  specialize (F (Z.to_nat n)). rewrite Z2Nat.id in F by lia.
+  assert (I : In (Z.to_nat n) (seq 0 (Z.to_nat 65537))).
+  { apply in_seq. unfold max_num_preds in Hn. lia. }
+  apply F in I. apply Z.ltb_lt in I. unfold max_token. lia.
+Qed.
+
 Section Proofs.
   Variable const : Type.
   Variable const_eqb : const -> const -> bool.
@@ -395,9 +407,9 @@ Section Proofs.
     read_pred const const_eqb parse ar (count const rows) FS (col_lines rows 0 ar ++ rest)
     = Some (filter (args_match FS) rows, rest).
   Proof.
-    intros ar FS rows rest HFS Hrows. unfold read_pred.
+    intros ar FS rows rest HFS Hrows. unfold read_pred, SimpleColumn.row in *.
     rewrite HFS, Nat.eqb_refl. cbn [negb].
-    rewrite app_length, col_lines_length. unfold count.
+    rewrite app_length, col_lines_length. unfold count. unfold SimpleColumn.row in *.
     destruct (Z.of_nat (ar * length rows + length rest) <? Z.of_nat (length rows) * Z.of_nat ar) eqn:E;
       [apply Z.ltb_lt in E; lia|].
     rewrite Nat2Z.id, repeat_map_st. subst ar.
@@ -405,5 +417,159 @@ Section Proofs.
     rewrite R.
     - rewrite kept_st; [reflexivity|]. intros r Hr. apply (Hrows r Hr).
     - intros r Hr. apply (Hrows r Hr).
+  Qed.
+
+  (* --------------------------------------------------- whole files, eager *)
+  Notation entry := (fun e : psym * list row => (fst e, count const (snd e))).
+
+  (* what the model requires of one listed predicate with its facts *)
+  Definition pred_ok (e : psym * list row) : Prop :=
+    fst (fst e) <> [] /\ ~ In 32 (fst (fst e)) /\ ~ In 10 (fst (fst e)) /\
+    Z.of_nat (length (header_line (fst e) (count const (snd e)))) < max_token /\
+    Z.of_nat (snd (fst e)) <= max_arity /\ count const (snd e) <= max_facts /\
+    rows_ok (snd (fst e)) (snd e) /\
+    (snd (fst e) = O -> (length (snd e) <= 1)%nat).
+
+  Definition body_lines (St : pstore) : list bytes :=
+    flat_map (fun e => match snd (fst e) with O => [] | Datatypes.S _ => col_lines (snd e) 0 (snd (fst e)) end) St.
+
+  Lemma body_ok : forall St, Forall pred_ok St -> body const print fixed St = Some (body_lines St).
+  Proof.
+    induction St as [|e St IH]; intro F; [reflexivity|].
+    inversion F as [|? ? He F']; subst. destruct e as [[s a] rows].
+    destruct He as (_ & _ & _ & _ & _ & _ & Hrows & _). simpl fst in *. simpl snd in *.
+    cbn [body body_lines flat_map fst snd]. rewrite (IH F').
+    unfold pred_body. cbn [fst snd]. destruct a as [|k]; [reflexivity|].
+    match goal with |- context [forallb ?f ?l] => assert (C : forallb f l = true) end.
+    { apply forallb_forall. intros r Hr. apply Nat.eqb_eq. apply (Hrows r Hr). }
+    rewrite C. reflexivity.
+  Qed.
+
+  Lemma args_match_none : forall n r, length r = n -> args_match (repeat None n) r = true.
+  Proof.
+    induction n as [|n IH]; intros r H; [reflexivity|].
+    destruct r as [|c r]; [discriminate|]. simpl. apply IH. simpl in H. lia.
+  Qed.
+
+  Lemma filter_all : forall {A} (f : A -> bool) l, (forall x, In x l -> f x = true) -> filter f l = l.
+  Proof.
+    induction l as [|x l IH]; intro H; [reflexivity|]. simpl. rewrite (H x (or_introl eq_refl)).
+    f_equal. apply IH. intros y Hy. apply H. right. exact Hy.
+  Qed.
+
+  Lemma read_preds_ok : forall St rest0,
+    Forall pred_ok St ->
+    read_preds const const_eqb parse fixed (map entry St) (body_lines St ++ rest0) = Some (facts_of St).
+  Proof.
+    induction St as [|e St IH]; intros rest0 F; [reflexivity|].
+    inversion F as [|? ? He F']; subst.
+    destruct He as (_ & _ & _ & _ & _ & _ & Hrows & Hzero).
+    destruct e as [[s a] rows]. simpl fst in *. simpl snd in *.
+    unfold facts_of. cbn [flat_map fst snd]. fold (facts_of St).
+    cbn [map body_lines flat_map fst snd]. fold (body_lines St).
+    destruct a as [|k].
+    - cbn [read_preds fst snd app]. rewrite (IH rest0 F'). simpl zero_count. cbn [andb].
+      specialize (Hzero eq_refl).
+      destruct rows as [|r [|r' rows]].
+      + reflexivity.
+      + destruct (Hrows r (or_introl eq_refl)) as [Hl _]. destruct r; [|discriminate]. reflexivity.
+      + simpl in Hzero. lia.
+    - cbn [read_preds fst snd]. rewrite <- app_assoc.
+      rewrite (read_pred_ok (Datatypes.S k) (repeat None (Datatypes.S k)) rows (body_lines St ++ rest0)
+                            (repeat_length _ _) Hrows).
+      rewrite (IH rest0 F').
+      rewrite filter_all; [reflexivity|].
+      intros r Hr. apply args_match_none. apply (Hrows r Hr).
+  Qed.
+
+  Lemma read_header_lines_ok : forall St rest0,
+    Forall pred_ok St ->
+    read_header_lines (length St) (map (fun e => header_line (fst e) (count const (snd e))) St ++ rest0)
+    = Some (map entry St, rest0).
+  Proof.
+    induction St as [|e St IH]; intros rest0 F; [reflexivity|].
+    inversion F as [|? ? He F']; subst.
+    destruct He as (H1 & H2 & _ & _ & H5 & H6 & _ & _).
+    cbn [length map app read_header_lines].
+    rewrite parse_header_line_ok; auto.
+    - rewrite (IH rest0 F'). reflexivity.
+    - unfold count in *. lia.
+  Qed.
+
+  Lemma read_header_ok : forall St rest0,
+    Forall pred_ok St -> Z.of_nat (length St) <= max_num_preds ->
+    read_header (header const St ++ rest0) = Some (map entry St, rest0).
+  Proof.
+    intros St rest0 F L. unfold header, read_header. cbn [app].
+    rewrite undec_dec by lia.
+    destruct (max_num_preds <? Z.of_nat (length St)) eqn:E; [apply Z.ltb_lt in E; lia|].
+    rewrite Nat2Z.id. apply read_header_lines_ok. exact F.
+  Qed.
+
+  Lemma col_lines_ok : forall rows n a,
+    (forall r, In r rows -> length r = (a + n)%nat /\ Forall const_ok r) ->
+    Forall line_ok (col_lines rows a n).
+  Proof.
+    unfold col_lines. intros rows. induction n as [|n IH]; intros a H; [constructor|].
+    cbn [seq flat_map]. apply Forall_app. split.
+    - apply Forall_forall. intros l Hl. apply in_map_iff in Hl. destruct Hl as [r [<- Hr]].
+      destruct (H r Hr) as [Hlen Hf]. unfold cell.
+      destruct (nth_error r a) as [c|] eqn:E.
+      + apply esc_line_ok. rewrite Forall_forall in Hf. apply Hf. eapply nth_error_In. exact E.
+      + apply nth_error_None in E. lia.
+    - apply IH. intros r Hr. destruct (H r Hr) as [Hlen Hf]. split; [lia|exact Hf].
+  Qed.
+
+  Lemma file_lines_ok : forall St,
+    Forall pred_ok St -> Z.of_nat (length St) <= max_num_preds ->
+    Forall line_ok (header const St ++ body_lines St).
+  Proof.
+    intros St F L. apply Forall_app. split.
+    - unfold header. constructor.
+      + unfold line_ok. split; [apply dec_not_in, not_digit_10|]. split.
+        * pose proof (dec_nonempty (Z.of_nat (length St))) as NE.
+          pose proof (dec_digits (Z.of_nat (length St))) as D.
+          destruct (dec (Z.of_nat (length St))) as [|x l] using rev_ind; [congruence|].
+          rewrite last_last. rewrite Forall_forall in D.
+          assert (is_digit x) by (apply D; rewrite in_app_iff; right; left; reflexivity).
+          unfold is_digit in *. lia.
+        * apply dec_small_length. lia.
+      + apply Forall_forall. intros l Hl. apply in_map_iff in Hl. destruct Hl as [e [<- He]].
+        rewrite Forall_forall in F. destruct (F e He) as (_ & _ & H3 & H4 & _).
+        destruct (header_line_ok_shape (fst e) (count const (snd e)) H3) as [A B].
+        unfold line_ok. auto.
+    - unfold body_lines. induction St as [|e St IH]; [constructor|].
+      inversion F as [|? ? He F']; subst. cbn [flat_map]. apply Forall_app. split.
+      + destruct (snd (fst e)) as [|k] eqn:Ea; [constructor|].
+        destruct He as (_ & _ & _ & _ & _ & _ & Hrows & _).
+        apply col_lines_ok. intros r Hr. rewrite Ea in Hrows. apply (Hrows r Hr).
+      + apply IH; [exact F'|]. simpl length in L. lia.
+  Qed.
+
+  Lemma write_listing : forall St,
+    Forall pred_ok St -> Z.of_nat (length St) <= max_num_preds ->
+    write const print fhash fixed false St = Some (header const St ++ body_lines St).
+  Proof.
+    intros St F L. unfold write.
+    destruct (max_num_preds <? Z.of_nat (length St)) eqn:E; [apply Z.ltb_lt in E; lia|].
+    cbn [ordered].
+    assert (C : forallb (fun e : psym * list (SimpleColumn.row const) =>
+                           (Z.of_nat (snd (fst e)) <=? max_arity) && (count const (snd e) <=? max_facts)) St = true).
+    { apply forallb_forall. intros e He. rewrite Forall_forall in F.
+      destruct (F e He) as (_ & _ & _ & _ & H5 & H6 & _).
+      apply andb_true_iff. split; apply Z.leb_le; assumption. }
+    rewrite C, (body_ok St F). reflexivity.
+  Qed.
+
+  (* what is written in listing order comes back, fact for fact, in the same order *)
+  Lemma read_write_listing : forall St,
+    Forall pred_ok St -> Z.of_nat (length St) <= max_num_preds ->
+    exists ls, write const print fhash fixed false St = Some ls /\
+               read_into const const_eqb parse fixed (scan_lines (unlines ls)) = Some (facts_of St).
+  Proof.
+    intros St F L. exists (header const St ++ body_lines St). split; [apply write_listing; assumption|].
+    rewrite scan_unlines by (apply file_lines_ok; assumption).
+    unfold read_into. rewrite read_header_ok by assumption.
+    rewrite <- (app_nil_r (body_lines St)). apply read_preds_ok. exact F.
   Qed.
 End Proofs.
